@@ -303,3 +303,24 @@ def c03_path_annotation_two_snvs(p1: int, p2: int) -> int:
     if r != OK:
         return r
     return c01_stage1._check(10, specs, 0)
+
+
+# ---------------------------------------------------------------- W>F entries name exactly the substituted positions
+from typing import List as _List  # noqa: E402
+
+from mpgverif.harness.kernel_vpd import CODES_C as _CODES_W2F, _w2f  # noqa: E402
+
+
+@cond('C03', bounds='peptide of length <= 4 over {A, F, W} (every string), UNBOUNDED symbolic length limits: every W>F form is '
+      'written with a header entry naming exactly the substituted tryptophans',
+      encodes=['moPepGen.svgraph.VariantPeptideDict.VariantPeptideDict.translational_modification / '
+               'find_codon_reassignments', 'moPepGen.seqvar.VariantRecord.create_variant_w2f'],
+      stubs=['Bio.SeqUtils.molecular_weight -> constant'], codes=_CODES_W2F, timeout=600)
+def c03_w2f_labels(idx: _List[int], lo: int, hi: int) -> int:
+    """
+    pre: 1 <= len(idx) <= 4
+    pre: all(0 <= i <= 2 for i in idx)
+    post: _ >= 0
+    """
+    p = [[65, 70, 87][concretize(i, 0, 2)] for i in idx]
+    return _w2f(p, lo, hi, 0)
